@@ -87,7 +87,8 @@ def gen_spec(rng, small=False, datatype=None, version=None, names=None, n_events
     version = version or rng.choice(['FCS2.0', 'FCS3.0', 'FCS3.1'])
     v3 = version != 'FCS2.0'
     dt = datatype or rng.wchoice([('I', 6), ('F', 2), ('D', 2)])
-    D = n_params or rng.wchoice([(1, 2), (2, 3), (3, 3), (4, 2), (5, 1), (6, 1)])
+    # mostly few parameters; sometimes two-digit parameter numbers ($P10B ... $P12R)
+    D = n_params or rng.wchoice([(1, 4), (2, 6), (3, 6), (4, 4), (5, 2), (6, 2), (10, 1), (11, 1), (12, 1)])
     if dt == 'I':
         if rng.chance(0.5):
             widths = [rng.choice(WIDTHS)] * D
@@ -112,7 +113,7 @@ def gen_spec(rng, small=False, datatype=None, version=None, names=None, n_events
         ranges.append(R)
     if names is None:
         if rng.chance(0.5):
-            pool = list(REAL_NAMES)
+            pool = list(REAL_NAMES) + ['FL%d-W' % j for j in range(1, 6)]
             rng.shuffle(pool)
             names = pool[:D]
         else:
@@ -195,7 +196,11 @@ def structural_fields(spec, info):
 
 def gen_field_fault(rng, spec, info, field=None, direction=None):
     """Returns {'field', 'value', 'dir'} with an explicit new value (string or int)."""
-    field = field or rng.choice(structural_fields(spec, info))
+    if field is None:
+        fs = structural_fields(spec, info)
+        # the DATA size consistency fields carry most of the property: weight them up
+        w = [(f, 3 if f in ('$TOT', '$PAR', 'H:data_begin', 'H:data_end', '$BEGINDATA', '$ENDDATA') else 1) for f in fs]
+        field = rng.wchoice(w)
     true = info['fields'][field].strip()
     tv = int(true)
     direction = direction or rng.choice(['smaller', 'larger', '+1', '-1'])
@@ -211,9 +216,11 @@ def gen_field_fault(rng, spec, info, field=None, direction=None):
     elif direction == '-1':
         nv = tv - 1
     elif direction == 'smaller':
-        nv = rng.randint(0, max(0, tv - 1)) if rng.chance(0.7) else max(0, tv - rng.randint(2, 9))
+        # just past the one-byte tolerance is the interesting boundary
+        nv = max(0, tv - 2) if rng.chance(0.3) else (rng.randint(0, max(0, tv - 1)) if rng.chance(0.6)
+                                                      else max(0, tv - rng.randint(2, 9)))
     else:
-        nv = tv + rng.randint(2, 40) if rng.chance(0.7) else tv * 2 + rng.randint(1, 5)
+        nv = tv + 2 if rng.chance(0.3) else (tv + rng.randint(2, 40) if rng.chance(0.7) else tv * 2 + rng.randint(1, 5))
     if nv < 0:
         nv = 0 if tv != 0 else 1
     if nv == tv:
